@@ -213,3 +213,11 @@ Definition wf (R : rules) (s : st) : Prop :=
 (* process start: initialize_backend() has selected default name 0 in the importing thread(s) own0 *)
 Definition init (own0 : tid -> option inst) : st :=
   {| shared := Named 0; dname := 0; tls := own0; loaded := fun n => Nat.eqb n 0; ctx := fun _ => [] |}.
+
+(* the observations returned to thread t along a history (what t itself gets back from its own
+   operations, in order) *)
+Fixpoint own_trace R c (t : tid) (s : st) (h : list op) : list obs :=
+  match h with
+  | [] => []
+  | o :: h' => (if Nat.eqb (thr o) t then [out R c s o] else []) ++ own_trace R c t (nxt R c s o) h'
+  end.
